@@ -94,8 +94,9 @@ def main():
                 print("  check %s %s -> %s (%.0fs) %s" % (c, tier, verdict, time.time() - t0, (viol[:1] or inc[:1] or [""])[0][:220]))
             os.makedirs(dest, exist_ok=True)
             shutil.copy("/tmp/m/%s.rebased.diff" % name, dest + "/patch.diff")
-            shutil.copy(demo, dest + "/demo_test.go")
-            if os.path.exists(txt):
+            if os.path.abspath(demo) != os.path.abspath(dest + "/demo_test.go"):
+                shutil.copy(demo, dest + "/demo_test.go")
+            if os.path.exists(txt) and os.path.abspath(txt) != os.path.abspath(dest + "/description.txt"):
                 shutil.copy(txt, dest + "/description.txt")
             old = {}
             if os.path.exists(dest + "/meta.json"):
